@@ -233,6 +233,29 @@ CORPUS = [
      [((0.2, 0, 0), 'm1_-1'), ((1.5, 0, 0), 'm1_-1.0'), ((2.5, 0, 0), 'm2_.5'),
       ((3.5, 0, 0), 'm2_0.5'), ((-6, 0, 0), 'm3_-1.5'), ((6, 0, 0), 'm3_-1.5e+0')],
      {'m1_-1', 'm1_-1.0', 'm2_.5', 'm2_0.5', 'm3_-1.5', 'm3_-1.5e+0'}),
+    # one material at several ATOM densities (and one mass density): every block
+    # must carry the density of its own cells (seeded change C09_G)
+    ('several-atom-densities', '''corpus atom densities
+1 1 0.06 -1 imp:n=1
+2 1 3.0 1 -2 imp:n=1
+3 1 -1.0 2 -3 imp:n=1
+4 1 0.1002 3 -4 imp:n=1
+5 0 4 -5 fill=1 imp:n=1
+6 0 5 imp:n=0
+7 2 8.5e-2 -6 u=1 imp:n=1
+8 2 4.25e-2 6 u=1 imp:n=1
+
+1 so 1
+2 so 2
+3 so 3
+4 so 4
+5 so 8
+6 px 0
+
+''' + MATS, [],
+     [((0.2, 0, 0), 'm1_0.06'), ((1.5, 0, 0), 'm1_3.0'), ((2.5, 0, 0), 'm1_-1.0'),
+      ((3.5, 0, 0), 'm1_0.1002'), ((-6, 0, 0), 'm2_8.5e-2'), ((6, 0, 0), 'm2_4.25e-2')],
+     {'m1_0.06', 'm1_3.0', 'm1_-1.0', 'm1_0.1002', 'm2_8.5e-2', 'm2_4.25e-2'}),
     # the two spellings repaired in /repo 6d1467b
     ('repaired-spellings', '''corpus repaired
 1 1 -1.0 -1 imp:n=1
